@@ -5,6 +5,7 @@ All statements are over `Wp.step / resolve / forces / avoids`, whose tables are 
 every `decide` below.
 -/
 import WpModel.Model.Break
+import WpModel.Lemmas.ParaLines
 
 namespace Wp.C04
 open Wp
@@ -194,5 +195,36 @@ example : resolve ([Brk.left, .page] ++ Brk.right :: [.page, .avoid]) = .right :
 example : pageBreakBetween
     (.mk true .auto .auto [.mk true .auto .auto [], .mk true .auto .column []])
     (.mk true .auto .auto [.mk true .page .auto []]) = .page := by decide
+
+/-! ### orphans and widows (PM model: `_linebox_layout` + `_break_line`) -/
+
+open Wp.PM in
+/-- (d)(e) When a paragraph is broken on a page that already has content (`page_is_empty` false), at
+least `orphans` lines stay in this fragment and at least `widows` lines are left for the next page;
+the only other outcomes are "no break" or "abort" (the whole paragraph is pushed to the next page).
+Holds for any number of lines, any resume position, any geometry. -/
+theorem orphans_widows (c : Ctx) (st : PStyle) (b : BoxSt) (n : Nat) (lineH : Rat)
+    (adj : List Rat) (bs posY : Rat) (skip : Option Resume) (dbd : Bool)
+    (hk : skipLine skip ≤ n) (hw : 1 ≤ st.widows)
+    (hstop : (lineboxLayout c st b n lineH false adj bs posY skip dbd).stop = true)
+    (hab : (lineboxLayout c st b n lineH false adj bs posY skip dbd).abort = false) :
+    let r := lineboxLayout c st b n lineH false adj bs posY skip dbd
+    r.lines.length ≥ st.orphans ∧ n - (skipLine skip + r.lines.length) ≥ st.widows := by
+  intro r
+  show r.lines.length ≥ st.orphans ∧ n - (skipLine skip + r.lines.length) ≥ st.widows
+  have hr : r = lineboxLayout c st b n lineH false adj bs posY skip dbd := rfl
+  clear_value r
+  unfold lineboxLayout at hr hstop hab
+  cases hloop : lineboxLoop c st b n lineH false adj bs posY skip dbd with
+  | done s => rw [hloop] at hstop; simp at hstop
+  | broke a stp res s =>
+    rw [hloop] at hr hab
+    simp only at hab
+    subst hab
+    subst hr
+    simp only
+    unfold lineboxLoop at hloop
+    exact lineLoop_break_orphans_widows c st b n lineH bs (skipLine skip) _ _ _ _ s stp res
+      (Nat.le_refl _) (by simp) (by omega) hw hloop
 
 end Wp.C04
